@@ -353,6 +353,21 @@ def corpus(ck, tmp):
             ck.count("corpus", json.dumps(dsc, sort_keys=True), nontrivial=False, sample={"designed": "boundary members", "create": rr[1]})
             continue
         check_one(ck, "corpus", rr[1], "boundary members (zero-length payload / text / uri / component part, empty names, dependency next to payloads)", fails)
+    # finite leaf alphabets, completely: every ASCII letter as a one-character component part, every registered enum name of
+    # the small tables (algorithms, key-wrap, version comparison) wherever a description can name it
+    import string
+    letters = string.ascii_uppercase + string.ascii_lowercase
+    for chunk in (letters[:26], letters[26:]):
+        dsc = {"SUIT_Envelope_Tagged": {
+            "suit-authentication-wrapper": {"SuitDigest": {"suit-digest-algorithm-id": "cose-alg-sha-256"}},
+            "suit-manifest": {"suit-manifest-version": 1, "suit-manifest-sequence-number": 2,
+                              "suit-common": {"suit-components": [[ch, i] for i, ch in enumerate(chunk)]},
+                              "suit-manifest-component-id": [chunk[-1], chunk[0]]}}}
+        rr = interp.run_impl(interp.impl_create, json.loads(json.dumps(dsc)))
+        if rr[0] != "ok":
+            fails.append({"input": {"description": dsc}, "observed": f"create raised {rr[1]}", "expected": "created: every ASCII letter is a component type character"})
+            continue
+        check_one(ck, "corpus", rr[1], "every ASCII letter as a one-character component part", fails)
     return fails
 
 
